@@ -209,7 +209,7 @@ def handle (j : Json) : Json :=
   match obj? j "parse_tree" with
   | some tr =>
     -- parse a JSON tree delivered by the harness (what json.loads returned for the real text)
-    let r := parse cfg P T (treeIn tr)
+    let r := parse cfg P .lenient T (treeIn tr)
     Json.mkObj [("parse", Json.str (resTag r)), ("back", match r with | .ok y => valOut y | _ => Json.null)]
   | none =>
   let x := valIn T (fld j "val")
@@ -222,7 +222,7 @@ def handle (j : Json) : Json :=
     ("enc", Json.str (resTag enc))]
   match enc with
   | .ok tree =>
-    let r := parse cfg P T tree
+    let r := parse cfg P .lenient T tree
     Json.mkObj (base ++ [
       ("tree", treeOut tree), ("std", Json.bool tree.standard), ("wf", Json.bool tree.wf),
       ("parse", Json.str (resTag r)),
